@@ -345,3 +345,35 @@ Proof.
   destruct (Ht k) as [T1 F1]. destruct (Ht k') as [T2 F2].
   exact (rt_key_inj F H1 H2 t _ _ Hk T1 T2 F1 F2 E).
 Qed.
+
+(* a NESTED tuple key type: (int, (int, int)) *)
+Definition emb_znn (p : Z * (Z * Z)) : value := VTuple [vint (fst p); VTuple [vint (fst (snd p)); vint (snd (snd p))]].
+Definition znn_eqb (p q : Z * (Z * Z)) : bool :=
+  Z.eqb (fst p) (fst q) && (Z.eqb (fst (snd p)) (fst (snd q)) && Z.eqb (snd (snd p)) (snd (snd q))).
+
+Lemma znn_eqb_eq : forall p q, znn_eqb p q = true <-> p = q.
+Proof.
+  intros [a [b c]] [a' [b' c']]. unfold znn_eqb. simpl. rewrite !andb_true_iff, !Z.eqb_eq.
+  split; [intros [-> [-> ->]]; reflexivity | intros H; inversion H; auto].
+Qed.
+
+Lemma znn_key_inj : forall p q, rt_key (emb_znn p) = rt_key (emb_znn q) -> p = q.
+Proof.
+  intros [a [b c]] [a' [b' c']] E.
+  assert (X : emb_znn (a, (b, c)) = emb_znn (a', (b', c'))).
+  { apply (rt_key_inj_nofloat (TTuple [TInt; TTuple [TInt; TInt]])); try assumption; try reflexivity;
+      simpl; repeat split; eexists; reflexivity. }
+  inversion X. reflexivity.
+Qed.
+
+Theorem dict_history_nested_tuple_keys : forall (V : Type) (embV : V -> value) ops m,
+  rt_drun (Z * (Z * Z)) V emb_znn embV ops (rep_dict (Z * (Z * Z)) V emb_znn embV m) =
+  Ok (rep_dict (Z * (Z * Z)) V emb_znn embV (fst (d_run (Z * (Z * Z)) V znn_eqb ops m)),
+      map (emb_dobs V embV) (snd (d_run (Z * (Z * Z)) V znn_eqb ops m))).
+Proof. intros. apply (dict_history_refines (Z * (Z * Z)) V emb_znn embV znn_eqb znn_eqb_eq znn_key_inj). Qed.
+
+Theorem set_history_nested_tuple_keys : forall ops s,
+  rt_srun (Z * (Z * Z)) emb_znn ops (rep_set (Z * (Z * Z)) emb_znn s) =
+  Ok (rep_set (Z * (Z * Z)) emb_znn (fst (s_run (Z * (Z * Z)) znn_eqb ops s)),
+      map emb_sobs (snd (s_run (Z * (Z * Z)) znn_eqb ops s))).
+Proof. intros. apply (set_history_refines (Z * (Z * Z)) emb_znn znn_eqb znn_eqb_eq znn_key_inj). Qed.
